@@ -31,7 +31,7 @@ import walkers
 LEVEL = 'other'
 EXPLANATION = __doc__
 ASSUMPTIONS = ['third-party Parser impls describe themselves truthfully']
-FLOORS = {'S.eval-meta': 28, 'K.skip': 5, 'W.walkers': 75, 'D.dedup': 5, 'H.item-copy': 5, 'N.names': 2, 'O.order': 5}
+FLOORS = {'S.eval-meta': 28, 'K.skip': 5, 'W.walkers': 75, 'D.dedup': 5, 'H.item-copy': 5, 'N.names': 2, 'O.order': 5, 'C.cursor': 2}
 
 WALKERS = {
     'append_meta::go': ([r'append_meta::go$'], {}),
@@ -61,6 +61,8 @@ def run(ctx):
         ctx.guard(item_copy, ctx, cfg, fs)
         ctx.guard(names, ctx, cfg, fs)
         ctx.guard(order, ctx, cfg, fs)
+        import docwalk
+        ctx.guard(docwalk.cursor_advance, ctx, cfg, fs, 'C.cursor', r'render_console$|Doc::first_line$')
 
 def self_fields_used(fs, body, callee_pats, argpos=0):
     """fields of `self` that reach the given argument position of calls matching the patterns (in the body or its closures)"""
